@@ -98,9 +98,65 @@ func isWatcherPos(v ssa.Value) bool {
 		}
 	}
 
-	load, ok := v.(*ssa.UnOp)
+	// the position handed by value to a function literal (e.g. of an inlined helper)
+	if fv, ok := v.(*ssa.FreeVar); ok {
+		if b := freeVarBinding(fv); b != nil {
+			return isWatcherPos(b)
+		}
 
-	return ok && load.Op == token.MUL && isWatcherPosAddr(load.X)
+		return false
+	}
+
+	load, ok := v.(*ssa.UnOp)
+	if !ok || load.Op != token.MUL {
+		return false
+	}
+
+	if isWatcherPosAddr(load.X) {
+		return true
+	}
+
+	// a by-value copy of the position (a helper's parameter that its own function literal captures):
+	// reads of the copy are reads of the position, stores that initialise it are not changes of it
+	addr := load.X
+	if fv, ok := addr.(*ssa.FreeVar); ok {
+		if b := freeVarBinding(fv); b != nil {
+			addr = b
+		}
+	}
+
+	if al, ok := addr.(*ssa.Alloc); ok {
+		if st := SingleStore(al); st != nil && st.Val != v {
+			return isWatcherPos(st.Val)
+		}
+	}
+
+	return false
+}
+
+// freeVarBinding finds what the enclosing function bound the captured variable to.
+func freeVarBinding(fv *ssa.FreeVar) ssa.Value {
+	fn := fv.Parent()
+	if fn == nil || fn.Parent() == nil {
+		return nil
+	}
+
+	for _, b := range fn.Parent().Blocks {
+		for _, in := range b.Instrs {
+			mc, ok := in.(*ssa.MakeClosure)
+			if !ok || mc.Fn != ssa.Value(fn) {
+				continue
+			}
+
+			for i, f := range fn.FreeVars {
+				if f == fv && i < len(mc.Bindings) {
+					return mc.Bindings[i]
+				}
+			}
+		}
+	}
+
+	return nil
 }
 
 func init() {
